@@ -371,5 +371,30 @@ v("C02", "revert-F53-directory-length-unchecked", LIB, "\tif (strlen(directory) 
 v("C20", "rf-reader-opts-into-deleting-metadata-reader", RF, "                reader = digital_metadata.DigitalMetadataReader(metadata_dir)\n", "                reader = digital_metadata.DigitalMetadataReader(metadata_dir, accept_empty=False)\n", rules=["C20.R8"])
 v("C20", "twin-accept-empty-spelled-out", RF, "                reader = digital_metadata.DigitalMetadataReader(metadata_dir)\n", "                reader = digital_metadata.DigitalMetadataReader(metadata_dir, accept_empty=True)\n", expect="silent")
 
+# ---- round 7 ---------------------------------------------------------------------------------------------------
+v("C05", "cursor-put-back-by-caller", LIB,
+  '\t\t\tfprintf(stderr, "Problem detected, dataset_samples_written = 0 after  %" PRIu64 " samples_written\\n", samples_written);\n',
+  '\t\t\tfprintf(stderr, "Problem detected, dataset_samples_written = 0 after  %" PRIu64 " samples_written\\n", samples_written);\n'
+  '\t\t\thdf5_data_object->global_index -= samples_written;\n', rules=["C05.R7"])
+v("C19", "marker-searched-in-full-path", LIB,
+  '\tstrcat(fullpath, strstr(hdf5_data_object->basename, "rf"));\n',
+  '\tstrcat(fullpath, hdf5_data_object->basename);\n\tmemmove(strstr(fullpath, "tmp."), strstr(fullpath, "tmp.") + 4, strlen(strstr(fullpath, "tmp.") + 4) + 1);\n',
+  rules=["C19.R5"])
+
+v("C13", "first-and-last-agree-shortcut", DM,
+  "        for file_idx, sample_group in itertools.groupby(\n            samples, lambda s: (int(s) * srd) // (srn * fcs)\n        ):\n",
+  "        groups = itertools.groupby(samples, lambda s: (int(s) * srd) // (srn * fcs))\n"
+  "        if (int(samples[0]) * srd) // (srn * fcs) == (int(samples[-1]) * srd) // (srn * fcs):\n"
+  "            groups = [((int(samples[0]) * srd) // (srn * fcs), samples)]\n"
+  "        for file_idx, sample_group in groups:\n", rules=["C13.R5"])
+v("C13", "twin-groups-bound-to-a-local", DM,
+  "        for file_idx, sample_group in itertools.groupby(\n            samples, lambda s: (int(s) * srd) // (srn * fcs)\n        ):\n",
+  "        groups = itertools.groupby(samples, lambda s: (int(s) * srd) // (srn * fcs))\n"
+  "        for file_idx, sample_group in groups:\n", expect="silent")
+v("C09", "writer-object-aliased-in-a-local", RF,
+  "        try:\n            next_avail_sample = _py_rf_write_hdf5.rf_write(\n                self._channelObj, arr, next_sample\n            )\n",
+  "        try:\n            channel = self._channelObj\n            next_avail_sample = _py_rf_write_hdf5.rf_write(\n                channel, arr, next_sample\n            )\n",
+  rules=["C09.R6"])
+
 def for_property(prop):
     return [x for x in V if prop in x["props"]]
